@@ -8,6 +8,7 @@ EXPLANATION = (
     "parser minus the guarded functions must be acyclic. The step budget (ensure_budget) bounds work, not depth. The AST-walking cycles "
     "(planner, validators, evaluator) are bounded by AST depth and are listed as dependent. Panic-freedom, allocation failure and timeliness are not decided."
     " The claim is a list of panic / abort classes, each decided structurally: C16.1 parser recursion cycles pass a depth guard; C16.2 no unwrap/expect on repository error types; C16.3 constant-offset str slices are dominated by an ASCII check of the same string; C16.4 no raw i64 arithmetic outside the evaluator; C16.5 Value::Int payloads are sign-tested before a cast to unsigned; C16.6 chrono's panicking TimeDelta constructors only get arguments bounded by construction (BITS); C16.7 no raw arithmetic on saturating_* results; C16.8 every parser loop that grows the expression tree iteratively passes the height guard; C16.9 plan-stacking parser loops are bounded by a constant budget (known finding). Signed arithmetic inside the temporal evaluator, computed slice indices and allocation sizes are not decided."
+    " C16.10: every computed index into a Vec / slice in the query crate (direct indexing and Index::index with a usize) is derived from, or dominated by a test against, the length of the very collection it indexes (views such as as_bytes are transparent); two sites with a reason each are named exceptions, and the parser-cursor invariant one of them relies on is itself checked."
 )
 
 PARSER_PREFIX = ("nervusdb_query::parser::", "nervusdb_query::parser_helper_exists::")
@@ -23,6 +24,7 @@ def run(ctx):
     ctx.rule("C16.7", "a value produced by saturating_* arithmetic (so believed to reach the extremes) is not combined by a raw overflow-capable operation")
     ctx.rule("C16.8", "every parser loop that wraps the expression under construction into a new parent node (iterative tree growth: `1+1+1...`, `a.b.c...`, `n:A:B:C...`) passes the tree-height guard once per new level")
     ctx.rule("C16.9", "every parser loop that appends one more plan-stacking unit (clause, UNION branch, pattern, hop) per iteration is bounded by a constant budget — the plan is compiled and executed recursively, one level per unit")
+    index_rule(ctx)
     ctx.rule("C16.2", "no unwrap/expect on a Result carrying one of the repository's error types in product code (an error must be returned, not turned into a panic)")
     nodes = sorted(i for i in F.bodies if i.startswith(PARSER_PREFIX) and "::tests::" not in i)
     ctx.floor("C16.1", "parser bodies", len(nodes), 60)
@@ -447,3 +449,167 @@ def run(ctx):
                        "the number of %ss this loop appends is bounded only by the length of the query text: each becomes one more level of the plan, and "
                        "plan compilation and execution recurse once per level (a few hundred stacked clauses overflow the stack and abort the process)" % short, c.loc())
     ctx.floor("C16.9", "plan-stacking loops in the parser", n9, 3)
+
+
+# ---------------------------------------------------------------------------------------------- C16.10
+# sites whose bound is established by an idiom the rule does not follow, each confirmed by reading
+INDEX_EXCEPTIONS = {
+    "nervusdb_query::evaluator::evaluator_temporal_parse::find_offset_split_index::{closure#0}":
+        "closure handed to `(1..bytes.len()).rev().find(..)`: the index is an element of a range that ends at the length of the captured slice",
+    "nervusdb_query::parser::TokenParser::peek":
+        "parser cursor invariant: `advance` increments `position` only when the current token is not Eof (checked below) and the lexer ends every stream with Eof",
+}
+TRANSPARENT_VIEWS = ("::as_bytes", "::as_slice", "::as_str", "::as_mut_slice", "::deref", "::as_ref", "::borrow")
+
+
+def _coll_key(b, l, depth=4):
+    from ..mirutil import place_path
+    from ..facts import op_local
+    if l is None:
+        return None
+    base, fs = place_path(b, l)
+    fields = tuple(f[0] for f in fs)
+    k, v = base[0], base[1]
+    if k == "call":
+        c = v
+        if c is not None and c.args and c.name.endswith(TRANSPARENT_VIEWS) and depth > 0:
+            inner = _coll_key(b, op_local(c.args[0]), depth - 1)
+            if inner is not None:
+                return (inner[0], inner[1], inner[2] + fields)
+        return ("call", c.bb if c is not None else None, fields)
+    if k in ("agg", "const"):
+        return (k, str(v)[:40], fields)
+    return (k, v, fields)
+
+
+def _len_keys(b, l, depth=24):
+    """collections whose length the value of local `l` depends on"""
+    from .c26 import bslice
+    from ..facts import op_local
+    ls, cs = bslice(b, l, depth=depth)
+    out = set()
+    empties = set()
+    for c in cs:
+        if c.args and c.name.endswith("::len"):
+            key = _coll_key(b, op_local(c.args[0]))
+            out.add(key)
+    for x in ls:
+        sd = b.single_def(x)
+        if sd and sd[2] == "assign" and sd[3][2][0] == "un" and sd[3][2][1] == "PtrMetadata":
+            out.add(_coll_key(b, op_local(sd[3][2][2])))
+    return out
+
+
+def _zero_after_nonempty(b, idx, coll, site):
+    """the only value of the index that reaches the site is the constant 0, and an is_empty test of the same collection dominates the site"""
+    from ..facts import op_local, op_const
+    from ..mirutil import switch_on, value_root
+    from .c26 import bslice
+    x = value_root(b, idx)
+    for (bi, si, kind, st) in b.defs().get(x, []):
+        zero = kind == "assign" and st[2][0] == "use" and op_const(st[2][1]) is not None and op_const(st[2][1]).get("v") == 0
+        if zero:
+            if not b.dominates(bi, site):
+                return False
+        elif site in b.reachable([bi]) or bi == site:
+            return False
+    for cb in range(len(b.blocks)):
+        sw = switch_on(b, cb)
+        if not sw or not b.dominates(cb, site) or cb == site:
+            continue
+        _, cs = bslice(b, sw[0], depth=8)
+        if any(c.name.endswith("::is_empty") and c.args and _coll_key(b, op_local(c.args[0])) == coll for c in cs):
+            return True
+    return False
+
+
+def index_rule(ctx, rid="C16.10"):
+    from ..facts import op_local, op_const
+    from ..mirutil import switch_on
+    F = ctx.facts
+    ctx.rule(rid, "a computed index into a Vec / slice in the query crate is derived from, or tested against, the length of the collection it indexes "
+             "(an index clamped by the length of a different collection panics when the two differ)")
+    n = 0
+    seen_exc = set()
+    for i, b in sorted(F.bodies.items()):
+        if not (i.startswith("nervusdb_query") or i.startswith("<nervusdb_query")) or "::tests::" in i:
+            continue
+        per = {}
+        for bi, blk in enumerate(b.blocks):
+            if b.is_cleanup(bi):
+                continue
+            t = blk["t"]
+            site = None
+            if t[0] == "assert" and t[3] == "bounds" and op_const(t[4][1]) is None:
+                idx, lenl = op_local(t[4][1]), op_local(t[4][0])
+                sd = b.single_def(lenl) if lenl is not None else None
+                if sd and sd[2] == "assign" and sd[3][2][0] == "un":
+                    site = (idx, _coll_key(b, op_local(sd[3][2][2])), "[]")
+                else:
+                    continue  # fixed-size array
+            elif t[0] == "call":
+                c = b.call_at(bi)
+                if c and c.declared == "core::ops::index::Index::index" and len(c.args) > 1:
+                    l = op_local(c.args[1])
+                    if l is not None and b.local_ty(l) == "usize":
+                        site = (l, _coll_key(b, op_local(c.args[0])), "Index")
+            if site is None or site[0] is None:
+                continue
+            idx, coll, kind = site
+            n += 1
+            k = per.get(kind, 0)
+            per[kind] = k + 1
+            ok = coll in _len_keys(b, idx)
+            how = "derived from its length"
+            if not ok:
+                for cb in range(len(b.blocks)):
+                    sw = switch_on(b, cb)
+                    if not sw or not b.dominates(cb, bi) or cb == bi:
+                        continue
+                    if coll in _len_keys(b, sw[0], depth=12):
+                        ok = True
+                        how = "dominated by a test against its length"
+                        break
+            if not ok and _zero_after_nonempty(b, idx, coll, bi):
+                ok = True
+                how = "index 0 of a collection tested non-empty"
+            root = b.id
+            if not ok and root in INDEX_EXCEPTIONS:
+                seen_exc.add(root)
+                ctx.instance(rid, "%s %s#%d: named exception — %s" % (root.split("::", 1)[1], kind, k, INDEX_EXCEPTIONS[root]))
+                continue
+            ctx.instance(rid, "%s %s#%d: %s" % (root.split("::", 1)[1], kind, k, how if ok else "UNBOUNDED"))
+            ctx.oblige(ok, rid, "%s:%s:%s#%d" % (rid, root, kind, k),
+                       "the index is neither derived from nor tested against the length of the collection it indexes: when it was clamped by another "
+                       "length (or by nothing) the access panics with `index out of bounds` inside query execution", "%s:%d" % (b.file, b.line_of_block(bi)))
+    ctx.floor(rid, "computed index sites in the query crate", n, 50)
+    # the parser cursor invariant the `peek` exception relies on
+    adv = ctx.body("nervusdb_query::parser::TokenParser::advance")
+    incs = []
+    for bi, blk in enumerate(adv.blocks):
+        for st in blk["s"]:
+            if st[0] == "a" and st[1][1] and isinstance(st[1][1][-1], list) and st[1][1][-1][0] == "f" and st[1][1][-1][2] == "position":
+                incs.append((bi, st))
+    guarded = 0
+    for bi, st in incs:
+        # either assigned from len() (clamp) or guarded by is_at_end
+        from .c26 import bslice, bool_branches, only_via
+        src = st[2][1] if st[2][0] == "use" else None
+        sl = src[1][0] if src and src[0] in ("c", "m") else None
+        dep = _len_keys(adv, sl) if sl is not None else set()
+        if any(kk is not None and kk[2] and kk[2][-1] == "tokens" for kk in dep):
+            guarded += 1
+            continue
+        ok = False
+        for cb in range(len(adv.blocks)):
+            br = bool_branches(adv, cb)
+            if br is None:
+                continue
+            sd = adv.single_def(br[0])
+            c = adv.call_at(sd[0]) if sd and sd[2] in ("call", "pcall") else None
+            if c is not None and c.name.endswith("TokenParser::is_at_end") and only_via(adv, br[2], cb, bi):
+                ok = True
+        ctx.oblige(ok, rid, rid + ":parser-cursor", "TokenParser::advance moves the cursor without testing is_at_end: the cursor can pass the Eof token and "
+                   "`peek` indexes beyond the token list", "%s:%d" % (adv.file, adv.line_of_block(bi)))
+        guarded += 1 if ok else 0
+    ctx.floor(rid, "cursor updates in TokenParser::advance", len(incs), 2)
